@@ -4,3 +4,4 @@ import Verif.Properties.C10
 #print axioms C10.phases_end_clean
 #print axioms C10.index_is_fresh_analysis
 #print axioms C10.pipeline_in_sync
+#print axioms C10.pipeline_in_sync_multi
